@@ -40,8 +40,21 @@ type Widen struct {
 	N    int    `json:"n"`
 }
 
+// Top is a mutation of one TOP-LEVEL member of the document (a JWT claim, a header parameter, a root property):
+// the member is selected by index into the sorted member names, so no knowledge of the schema is needed.
+// Generic node selection rarely hits the handful of top-level members of a document that embeds large values
+// (a `vp` claim holding credentials), while "claim absent / null / of another type" is what parsers forget to check.
+type Top struct {
+	Key uint32 `json:"key"`
+	Op  string `json:"op"` // delete | null | string | emptystring | number | bool | array | object | emptyobject | arrayof
+}
+
+// TopOps lists the operators of Top.
+var TopOps = []string{"delete", "delete", "null", "null", "string", "emptystring", "number", "bool", "array", "object", "emptyobject", "arrayof"}
+
 // Plan is what one case does to a seed document.
 type Plan struct {
+	Top   []Top              `json:"top,omitempty"`
 	Muts  []jsonmut.Mutation `json:"muts"`
 	Widen *Widen             `json:"widen,omitempty"`
 	Raw   *Raw               `json:"raw,omitempty"`
@@ -57,6 +70,11 @@ func GenPlan(t *rapid.T, keys []string) Plan {
 	n := rapid.SampledFrom([]int{0, 1, 1, 1, 1, 1, 2, 2, 2, 3, 3}).Draw(t, "nmut")
 	for i := 0; i < n; i++ {
 		p.Muts = append(p.Muts, jsonmut.Gen(t, fmt.Sprintf("m%d", i), nil, keys))
+	}
+	// top-level member mutations: none (1/2), one (1/3) or two (1/6), e.g. "jti present, vp absent"
+	ntop := rapid.SampledFrom([]int{0, 0, 0, 1, 1, 2}).Draw(t, "ntop")
+	for i := 0; i < ntop; i++ {
+		p.Top = append(p.Top, Top{Key: rapid.Uint32Range(0, 31).Draw(t, fmt.Sprintf("top%d.key", i)), Op: rapid.SampledFrom(TopOps).Draw(t, fmt.Sprintf("top%d.op", i))})
 	}
 	if rapid.IntRange(0, 11).Draw(t, "haswiden") == 0 {
 		p.Widen = &Widen{Node: rapid.Uint32().Draw(t, "widen.node"), N: rapid.SampledFrom([]int{16, 128, 512}).Draw(t, "widen.n")}
@@ -88,6 +106,14 @@ type Applied struct {
 func (p Plan) ApplyDoc(doc any) (any, Applied) {
 	var a Applied
 	cur := doc
+	for _, tm := range p.Top {
+		if out, d, ok := applyTop(cur, tm); ok {
+			cur = out
+			a.Descs = append(a.Descs, d)
+		} else {
+			a.NoOps++
+		}
+	}
 	big := 0
 	for _, m := range p.Muts {
 		if m.Op == "bigstring" {
@@ -119,6 +145,49 @@ func (p Plan) ApplyDoc(doc any) (any, Applied) {
 		}
 	}
 	return cur, a
+}
+
+// applyTop applies a top-level member mutation to a copy of doc (root must be an object with members).
+func applyTop(doc any, tm Top) (any, jsonmut.Desc, bool) {
+	root, isObj := doc.(map[string]any)
+	if !isObj || len(root) == 0 {
+		return doc, jsonmut.Desc{}, false
+	}
+	keys := make([]string, 0, len(root))
+	for k := range root {
+		keys = append(keys, k)
+	}
+	sort.Strings(keys)
+	key := keys[int(tm.Key)%len(keys)]
+	out := make(map[string]any, len(root))
+	for k, v := range root {
+		out[k] = v
+	}
+	switch tm.Op {
+	case "delete":
+		delete(out, key)
+	case "null":
+		out[key] = nil
+	case "string":
+		out[key] = "x"
+	case "emptystring":
+		out[key] = ""
+	case "number":
+		out[key] = json.Number("1")
+	case "bool":
+		out[key] = true
+	case "array":
+		out[key] = []any{}
+	case "object":
+		out[key] = map[string]any{"x": "y"}
+	case "emptyobject":
+		out[key] = map[string]any{}
+	case "arrayof":
+		out[key] = []any{root[key]}
+	default:
+		return doc, jsonmut.Desc{}, false
+	}
+	return out, jsonmut.Desc{Op: "top-" + tm.Op, Pointer: "/" + key, Class: "/" + key, Detail: "top-level member " + key}, true
 }
 
 // widenArrays lists the pointers of the non-empty arrays of doc.
@@ -293,6 +362,9 @@ func (a Applied) Classes() []string {
 	}
 	for _, d := range a.Descs {
 		out = append(out, "op="+d.Op)
+		if strings.HasPrefix(d.Op, "top-") {
+			out = append(out, "top-member="+strings.TrimPrefix(d.Pointer, "/"))
+		}
 	}
 	if a.RawDone {
 		out = append(out, "raw-mutation")
